@@ -13,6 +13,10 @@ structure EngSt where
   created : Bool := false
   resync : Bool := false      -- adopt the next snapshot line (after an unmodelled operation)
   resized : Bool := false     -- the maximum size was changed on open (allocWF does not cover shrinking)
+  /-- the data end marker in the file header, as far as known: it is rewritten by commits that change the
+      allocator state; `absorbOverflow` raises the in-memory marker only. `none` after a resize. -/
+  diskDE : Option Nat := none
+  alloc0 : Alloc := {}        -- allocator state when the running transaction began
   checked : Nat := 0
   mismatches : List String := []
   deriving Inhabited
@@ -113,17 +117,24 @@ def engStep (s : EngSt) (line : String) : EngSt :=
     if rkind != "ok" then s.miss line "open failed" else
     if !s.created then
       let ps := fieldNat rest "ps"
-      { s with f := FileSt.create ps (fieldNat rest "maxsize" / ps) (fieldNat rest "meta"), created := true, tx := none }.ok
-    else { s with f := s.f.reopen, tx := none }.ok
-  | "resize-grow" :: _ => { s with resync := true, resized := true, tx := none, f := s.f.reopen }
-  | "resize-shrink" :: _ => { s with resync := true, resized := true, tx := none, f := s.f.reopen }
-  | "resize-unbound" :: _ => { s with resync := true, resized := true, tx := none, f := s.f.reopen }
+      let f0 := FileSt.create ps (fieldNat rest "maxsize" / ps) (fieldNat rest "meta")
+      { s with f := f0, created := true, tx := none, diskDE := some f0.alloc.data.endMarker }.ok
+    else
+      match s.diskDE with
+      | some d =>
+        -- the allocator state is read from the header: persisted data end marker, then `absorbOverflow`
+        let f1 : FileSt := { s.f with alloc := { s.f.alloc with data := { s.f.alloc.data with endMarker := d } } }
+        { s with f := f1.reopen, tx := none }.ok
+      | none => { s with f := s.f.reopen, tx := none, resync := true }.ok   -- persisted marker unknown after a resize
+  | "resize-grow" :: _ => { s with resync := true, resized := true, tx := none, f := s.f.reopen, diskDE := none }
+  | "resize-shrink" :: _ => { s with resync := true, resized := true, tx := none, f := s.f.reopen, diskDE := none }
+  | "resize-unbound" :: _ => { s with resync := true, resized := true, tx := none, f := s.f.reopen, diskDE := none }
   | ["closefile"] => s
   | "begin" :: rest =>
     if rkind != "ok" then s.miss line "begin failed" else
     let ovf := (field rest "ovf").getD "false" == "true"
     -- states reached after a transaction used the overflow area are outside `allocWF`
-    { s with tx := some (s.f.beginTx ovf (fieldNat rest "grow") (fieldNat rest "wal")), resized := s.resized || ovf }.ok
+    { s with tx := some (s.f.beginTx ovf (fieldNat rest "grow") (fieldNat rest "wal")), resized := s.resized || ovf, alloc0 := s.f.alloc }.ok
   | ["alloc", n] =>
     match s.tx, n.toNat? with
     | some tx, some n =>
@@ -232,6 +243,8 @@ def engStep (s : EngSt) (line : String) : EngSt :=
           let (f, r, copied) := commitAfterFlush f tx
           let want := match r with
             | .ok => "ok" | .flushFailed => "err:commitfail" | .walOom => "err:commitfail/oom" | .allocOom => "err:commitfail/oom"
+          -- a commit that changed the allocator state rewrites the end markers in the header
+          let s := if r == .ok && f.alloc != s.alloc0 then { s with diskDE := some f.alloc.data.endMarker } else s
           if res == want && sortPairs ck == sortPairs copied then (endTx s f).ok
           else s.miss line s!"model: {want}, checkpoint copies {copied}"
     | none => s.miss line "no transaction"
